@@ -599,11 +599,34 @@ PROPS["C10"] = _dbg(
     ["Lace.C10.paused_machine_on_trajectory", "Lace.C10.stepInto_iter", "Lace.C10.continue_iter",
      "Lace.C10.stepOver_iter", "Lace.C10.stepOver_pauses", "Lace.C10.stepOut_iter", "Lace.C10.cmd_step",
      "Lace.C10.cmd_stepInto", "Lace.C10.cmd_refused_at_halt", "Lace.C10.stepInto_exact",
-     "Lace.C10.run_exact", "Lace.C10.continue_exact", "Lace.C10.stepOver_exact", "Lace.C10.stepOut_exact"],
+     "Lace.C10.run_exact", "Lace.C10.continue_exact", "Lace.C10.stepOver_exact", "Lace.C10.stepOut_exact",
+     # refinement of the big-step reference debugger Spec/RefDebug.lean (Props/C10Ref.lean)
+     "Lace.C10.stepping_refines_reference",
+     "Lace.C10.stepping_refines_reference_done",
+     "Lace.C10.reference_refines_stepping",
+     "Lace.C10.reference_fuel_refines_stepping",
+     "Lace.C10.stepping_fuel_prefix",
+     "Lace.C10.session_sim",
+     "Lace.C10.cmd_sim",
+     "Lace.C10.single_command",
+     "Lace.C10.step_into_exact_with_breakpoints",
+     "Lace.C10.step_over_call_pauses_at_return",
+     "Lace.C10.step_out_stops_after_ret",
+     "Lace.C10.step_out_without_stack",
+     "Lace.C10.continue_stops_only_at_interrupt",
+     "Lace.RefDebugProofs.run_sim",
+     "Lace.RefDebugProofs.classOk_all",
+     "Lace.RefDebugProofs.runObs_fst",
+     "Lace.C10.runUntil_paused",
+     "Lace.C10.runUntil_count_le",
+     "Lace.C10.resume_paused"],
     "generated programs and hand-written ones (self-loop, counted loop, recursive JSR and CALL subroutines, HALT in the "
     "middle, jumps to xFFFF / below origin / above user space, high origin) × random scripts over {step, step into k with "
     "k ∈ {0,1,2,3,7,65535}, step out, continue, break add/remove} ending in exit; verdict adv=same: the paused machine "
-    "equals an undebugged run of the image advanced by exactly the number of executed instructions.")
+    "equals an undebugged run of the image advanced by exactly the number of executed instructions. Three-way: for every "
+    "session `cs; exit` over the alphabet that ends, the driver also runs the big-step reference debugger "
+    "(Spec/RefDebug.lean, executable) and its outcome, final machine, world, instruction count, executed addresses and "
+    "command/execution interleaving form the specification line the implementation must equal.")
 PROPS["C11"] = _dbg(
     ["Lace.C11.bp_sorted_nodup", "Lace.C11.bp_pause_before_exec", "Lace.C11.exec_rearms",
      "Lace.C11.no_bp_no_pause", "Lace.C11.runCommand_bps", "Lace.C11.armed_iteration_reads",
